@@ -4,6 +4,13 @@ from harness.drivers import alias, walks
 
 
 def run(ck):
+    # Machine.tla: TLC checks Impl |= Props on the bounded instance and exports programs (spec -> code)
+    from vlib import machine
+    from harness import gen as _gen
+    _tids = _gen.Tids(100000)
+    mprogs = []
+    mprogs += machine.run_machine(ck, "Z2", "fermionic", "PoolZ2s", "OpsAll", rank=2, depth=2, mod=40, tids=_tids)
+    ck.conform(mprogs)
     q = ck.tier == "quick"
     tids = gen.Tids()
     progs = alias.programs(ck.seed, 100 if q else 1500, tids=tids)
